@@ -25,6 +25,8 @@ import CompmechVerif.Spec.WholeMatrixPSD
 import CompmechVerif.Spec.PSDExample
 import CompmechVerif.Spec.RigidTranslation
 import CompmechVerif.Spec.BardellIntegrals
+import CompmechVerif.Model.PanelGlueLemmas
+import CompmechVerif.Spec.PanelGlueKernels
 import Mathlib.Tactic.Positivity
 import Mathlib.Tactic.FinCases
 import Mathlib.Data.Fintype.Basic
@@ -648,5 +650,81 @@ example (m n row0 : Nat) (hm : 3 ≤ m) (hn : 3 ≤ n) (α : Fin 3) :
         * rigidAmp 3 m row0 α.val (row0 + c) = 2 := by
   rw [total_mass_y1y2_plate unitBase (by norm_num [unitBase]) (by norm_num [unitBase]) 0 0 (1 / 2) (3 / 2) m n row0 hm hn α]
   norm_num [unitBase]
+
+/-! ### the Python glue of `Panel.calc_kM` (hand model `Model/PanelGlue.lean`, tied to the running `_panel.py` by the
+recorded-kernel-call correspondence of `tools/props/C02.py : glue_correspondence`)
+
+For ALL panel states `P` and call arguments `A` (over any linearly ordered field).  `P.onStrip`: both `y1` and `y2` are numbers
+(`0.0` is a number); `boundsSpec P` = `[y1, y2]` then, `[]` otherwise; `zeroIfNone`: `None` read as `0.`;
+`placeSpec k P A` = `[size, row0, col0]` with the defaults `dofs·m·n`, `0`, `0`. -/
+
+section glue
+open Compmech.PanelGlue Compmech.Asm
+variable {F : Type} [Field F] [LinearOrder F]
+
+/-- **`calc_kM` dispatch**: a missing density (`mu is None`) is a `ValueError` for every model; whenever the call succeeds it
+makes exactly ONE kernel call: the strip kernel `fkMy1y2` iff both bounds are given, with exactly `(y1, y2)` in front, `fkM`
+otherwise; the reference-surface distance handed over is `d = −offset` FOR EVERY MODEL; then the panel and the placement; the
+panel object carries `r` and `alpharad` refreshed from the current definition (`None → 0`); the result is
+`finalize_symmetric_matrix` of the kernel's matrix iff `finalize`. -/
+theorem calc_kM_dispatch (P : Panel F) (A : Args F) :
+    (∀ k, P.model = .kind k → P.mu = none → (calcKM P A).res = .error .muMissing) ∧
+    (∀ R, (calcKM P A).res = .ok R →
+      ∃ k g, P.model = .kind k ∧ P.mu ≠ none ∧ R.calls = [g] ∧ g.num = false ∧
+        (g.name = .fkMy1y2 ↔ P.onStrip) ∧ (g.name = .fkM ↔ ¬ P.onStrip) ∧
+        g.args = boundsSpec P ++ [.q (-P.offset), .panel] ++ placeSpec k P A ∧
+        g.r = some (zeroIfNone P.r) ∧ g.alpharadFrom = some (zeroIfNone P.alphadeg) ∧
+        R.comb = (if A.finalize = true then Comb.fin else id) (.call 0)) := by
+  constructor
+  · intro k hk hmu
+    unfold calcKM
+    simp only [hk, ModelAttr.kind?]
+    have : (resolveSize k (refreshGeom P) A.size).1.mu = none := by
+      rw [((resolveSize_sameDef k (refreshGeom P) A.size).trans (refreshGeom_sameDef P)).mu]; exact hmu
+    rcases hrs : resolveSize k (refreshGeom P) A.size with ⟨P2, size⟩
+    rw [hrs] at this
+    simp only at this
+    simp [this]
+  · intro R h
+    obtain ⟨k, P2, hsd, hpost, hk, hmu, hr, hal, hR⟩ := calcKM_ok h
+    have hn := name_strip_iff P P (SameDef.refl P) .fkMy1y2 .fkM (by decide)
+    refine ⟨k, _, hk, hmu, by rw [hR], rfl, hn.1, hn.2, ?_, ?_, ?_, ?_⟩
+    · show _ ++ _ ++ placement A _ = _
+      rw [placement_eq]
+    · show P2.r = _; rw [hr, getD_eq_zeroIfNone]
+    · show P2.alpharadFrom = _; rw [hal, getD_eq_zeroIfNone]
+    · rw [hR]; cases A.finalize <;> simp [finWrap]
+
+/-- non-vacuity: the witness panel (offset `1/10`, strip from `y1 = 0.0`) gets `fkMy1y2(0, 1/2, −1/10, panel, 3·2·3, 0, 0)`
+(the model is given explicitly: `calc_kM` does not run `_rebuild`) -/
+example : ∃ R, (calcKM { exPanel with model := .kind .plate } {}).res = .ok R ∧
+    sig R = [(.fkMy1y2, [.q 0, .q (1 / 2), .q (-(1 / 10)), .panel, .nat 18, .nat 0, .nat 0])] :=
+  ⟨_, rfl, rfl⟩
+
+/-- **`calc_kM` with the regenerated flat-plate kernels**: combined with `kM_matrix_plate` / `kMy1y2_matrix_plate`, at the positions
+of ANY two degrees of freedom the matrix `calc_kM()` returns holds the Hessian of the kinetic energy over the panel's OWN domain
+with the through-thickness moments of a reference surface at `δ = +offset` — the distance the laminate (`read_stack(offset=…)`)
+uses as well. -/
+theorem calc_kM_eq_kinetic_hessian_plate [CharZero F] (P : Panel F) (A : Args F) (R : Result F) (base : PCtx F)
+    (I : Integrals F) (hI : I.Comm) (ha : base.a ≠ 0) (hb : base.b ≠ 0) (hfin : A.finalize = true)
+    (hplace : A.row0 = A.col0) (h : (calcKM P A).res = .ok R)
+    {i k j l : Nat} (hi : i < P.m) (hk : k < P.m) (hj : j < P.n) (hl : l < P.n) (α β : Fin 3) :
+    toFun (R.eval (panelKern plateTable base I P.m P.n)) (A.row0.getD 0 + 3 * (j * P.m + i) + α.val)
+        (A.row0.getD 0 + 3 * (l * P.m + k) + β.val)
+      = hessian (ctxAt (withD base (-P.offset)) I i k j l) .full (domOf P) (velOps (withD base (-P.offset)))
+          (massW (withD base (-P.offset)) P.offset) (fld3 α) (fld3 β) := by
+  rw [calc_kM_panelKern plateTable P A R base I hfin h hplace]
+  have ha' : (withD base (-P.offset)).a ≠ 0 := ha
+  have hb' : (withD base (-P.offset)).b ≠ 0 := hb
+  have hδ : -(withD base (-P.offset)).d = P.offset := by rw [withD_d, neg_neg]
+  unfold cooOf domOf
+  rw [plateTable_fkM, plateTable_fkMy1y2]
+  cases P.y1 <;> cases P.y2 <;> simp only
+  · rw [kM_matrix_plate (withD base (-P.offset)) I hI ha' hb' P.m P.n _ hi hk hj hl α β, hδ]
+  · rw [kM_matrix_plate (withD base (-P.offset)) I hI ha' hb' P.m P.n _ hi hk hj hl α β, hδ]
+  · rw [kM_matrix_plate (withD base (-P.offset)) I hI ha' hb' P.m P.n _ hi hk hj hl α β, hδ]
+  · rw [kMy1y2_matrix_plate (withD base (-P.offset)) I hI ha' hb' P.m P.n _ hi hk hj hl α β, hδ]
+
+end glue
 
 end Compmech.Panel.C04
